@@ -1,4 +1,4 @@
-ENTRY = {'modules': ['VirtioVerif.Props.C19Drivers'],
+ENTRY = {'modules': ['VirtioVerif.Props.C19Drivers', 'VirtioVerif.Props.C19'],
  'assumptions': ['abstract queue (Model/EvQueue.lean, assumptions A1-A4): one-descriptor chains; add fails '
                  'with QueueFull iff posted+used+1 > SIZE; peek/pop follow used-ring order; pop_used returns '
                  "the device's length and copies the device-visible bytes back; the device completes only "
@@ -15,15 +15,18 @@ ENTRY = {'modules': ['VirtioVerif.Props.C19Drivers'],
              'duplicated in Lean (EventQueues.evByte) and Rust (ev_byte)',
              'bytes of a buffer the device did not write read back as 0xA5 (LedgerHal bounce poison); '
              'visible only for under-written completions and for input events shorter than 8 bytes'],
- 'explanation': 'Lean: for OwningQueue::{new,pop,add_buffer_to_queue,poll}, VirtIOInput::pop_pending_event '
-                'and VirtIOSound::latest_notification over the abstract queue: construction posts buffer i '
-                'under token i; one poll with a completion pending pops exactly the head of the used ring, '
-                'hands out exactly len bytes (IoError for len > BUFFER_SIZE, handler not called) and in '
-                'every case re-posts the same buffer under the same token; by induction over arbitrary '
-                'histories (any completion order, burst, data, reported length, handler results): delivered '
-                '++ still-in-used-ring = completed (exactly once, in order) and posted + unpolled = SIZE '
-                'with the tokens a permutation of 0..SIZE-1 (fully stocked). Harness: floods of up to 60 x '
-                'SIZE events against the real OwningQueue (six SIZE/BUFFER_SIZE pairs, three handler kinds), '
+ 'explanation': 'Queue level: same_token_again (in any reachable state, after a completion is consumed the '
+                'next accepted submission gets the same token) and fresh-queue token order discharge the '
+                'allocator hypothesis of the driver-level theorems. Lean: for '
+                'OwningQueue::{new,pop,add_buffer_to_queue,poll}, VirtIOInput::pop_pending_event and '
+                'VirtIOSound::latest_notification over the abstract queue: construction posts buffer i under '
+                'token i; one poll with a completion pending pops exactly the head of the used ring, hands '
+                'out exactly len bytes (IoError for len > BUFFER_SIZE, handler not called) and in every case '
+                're-posts the same buffer under the same token; by induction over arbitrary histories (any '
+                'completion order, burst, data, reported length, handler results): delivered ++ '
+                'still-in-used-ring = completed (exactly once, in order) and posted + unpolled = SIZE with '
+                'the tokens a permutation of 0..SIZE-1 (fully stocked). Harness: floods of up to 60 x SIZE '
+                'events against the real OwningQueue (six SIZE/BUFFER_SIZE pairs, three handler kinds), '
                 'VirtIOInput and VirtIOSound with random completion order, bursts, every length '
                 '0..=BUFFER_SIZE plus under-written and oversized lengths, compared step by step with the '
                 'model and checked by device-side posted/returned accounting.',
